@@ -141,6 +141,11 @@ func (x *reqChecker) walk(typ string, setRef int, provided *selNode, isRoot, und
 					x.bad("%s.%s is @external in subgraph %s and not provided on this path", typ, name, x.g.Name)
 				}
 			}
+			if sf.Requires != "" && !underEntities {
+				// the inputs of a @requires field are @external here: the subgraph can compute the
+				// field only from a representation, i.e. directly under an _entities fragment
+				x.bad("%s.%s has @requires(%s) in subgraph %s but is selected outside an _entities fetch", typ, name, sf.Requires, x.g.Name)
+			}
 			if underEntities {
 				x.entityFields[typ] = append(x.entityFields[typ], name)
 			}
